@@ -123,7 +123,69 @@ pub fn c13_float_lift_extract() {
     cover!(true);
 }
 
+/// second-order vector type: widening / unchecked narrowing keep every entry of the (possibly
+/// non-symmetric) matrix part in its place, for every presence pattern
+#[cfg_attr(kani, kani::proof)]
+pub fn c13_dual2vec_widen_entries() {
+    use nalgebra::SMatrix;
+    let (p1, p2) = (any_bool(), any_bool());
+    let (a, b, c, d) = (any_f32(), any_f32(), any_f32(), any_f32());
+    let v1 = if p1 { Derivative::some(SMatrix::<f32, 1, 2>::new(any_f32(), any_f32())) } else { Derivative::none() };
+    let v2 = if p2 { Derivative::some(SMatrix::<f32, 2, 2>::new(a, b, c, d)) } else { Derivative::none() };
+    let x = Dual2Vec::<f32, f32, Const<2>>::new(any_f32(), v1, v2);
+    let w: Dual2Vec<f64, f64, Const<2>> = x.to_superset();
+    assert!(same64(w.re, x.re as f64));
+    assert!((w.v1 == Derivative::none()) == !p1 && (w.v2 == Derivative::none()) == !p2);
+    if p2 {
+        let m = w.v2.clone().unwrap_generic(Const::<2>, Const::<2>);
+        assert!(same64(m[(0, 0)], a as f64) && same64(m[(0, 1)], b as f64));
+        assert!(same64(m[(1, 0)], c as f64) && same64(m[(1, 1)], d as f64));
+    }
+    if p1 {
+        let r = w.v1.clone().unwrap_generic(U1, Const::<2>);
+        let xr = x.v1.clone().unwrap_generic(U1, Const::<2>);
+        assert!(same64(r[0], xr[0] as f64) && same64(r[1], xr[1] as f64));
+    }
+    let back: Dual2Vec<f32, f32, Const<2>> = SubsetOf::from_superset_unchecked(&w);
+    if p2 {
+        let m = back.v2.clone().unwrap_generic(Const::<2>, Const::<2>);
+        assert!(eq32(m[(0, 1)], b) && eq32(m[(1, 0)], c));
+    }
+    let chk: Option<Dual2Vec<f32, f32, Const<2>>> = SubsetOf::from_superset(&w);
+    assert!(chk.is_some() == <Dual2Vec<f32, f32, Const<2>> as SubsetOf<Dual2Vec<f64, f64, Const<2>>>>::is_in_subset(&w));
+    if let Some(k) = chk {
+        assert!((k.v2 == Derivative::none()) == !p2);
+        if p2 {
+            let m = k.v2.unwrap_generic(Const::<2>, Const::<2>);
+            assert!(eq32(m[(0, 1)], b) && eq32(m[(1, 0)], c));
+        }
+    }
+    cover!(p2 && !p1);
+}
+
+/// dynamic storage
+#[cfg_attr(kani, kani::proof)]
+#[cfg_attr(kani, kani::unwind(6))]
+pub fn c13_dualdvec_widen_narrow() {
+    use nalgebra::{DVector, Dyn};
+    let present = any_bool();
+    let (a, b) = (any_f32(), any_f32());
+    let eps = if present { Derivative::some(DVector::<f32>::from_vec(vec![a, b])) } else { Derivative::none() };
+    let x = DualVec::<f32, f32, Dyn>::new(any_f32(), eps);
+    let w: DualVec<f64, f64, Dyn> = x.to_superset();
+    assert!(same64(w.re, x.re as f64) && (w.eps == Derivative::none()) == !present);
+    if present {
+        let e = w.eps.clone().unwrap_generic(Dyn(2), U1);
+        assert!(e.len() == 2 && same64(e[0], a as f64) && same64(e[1], b as f64));
+    }
+    let r: Option<DualVec<f32, f32, Dyn>> = SubsetOf::from_superset(&w);
+    assert!(r.is_some() == <DualVec<f32, f32, Dyn> as SubsetOf<DualVec<f64, f64, Dyn>>>::is_in_subset(&w));
+    cover!(present);
+}
+
 pub const LIST: &[(&str, fn())] = &[
+    ("c13_dual2vec_widen_entries", c13_dual2vec_widen_entries),
+    ("c13_dualdvec_widen_narrow", c13_dualdvec_widen_narrow),
     ("c13_dual_widen_roundtrip", c13_dual_widen_roundtrip),
     ("c13_dual_narrow_membership", c13_dual_narrow_membership),
     ("c13_dual2_narrow_membership", c13_dual2_narrow_membership),
